@@ -422,6 +422,141 @@ theorem C06_indexed_checked_rejects {v : View} {sels : List Sel} {iv : IView}
       rw [hne]
       exact storesGo_err true iv _ _ _ hex hall hl
 
+/-! ## `end` arithmetic and integer-vector expressions in index position
+
+An index, a range end point or a stride may be any rank-0 integer expression built from `end`, and an index
+vector any rank-1 integer expression: `k-end`, `end/2`, `k/end`, `2*end`, `(end-1)/2`, `(n-1)-idx`, `idx+1`, … .
+The C++ evaluates them with `value_with_len_(j, len)` of the three classes of BinaryOperation.h
+(`BinaryOpScalarLeft`, `BinaryOpScalarRight`, `BinaryOperation`) and of `EndIndex`; `EndExpr.resolve` /
+`VExpr.valueWithLen` transcribe these.  All the address, extent, containment and rejection theorems above are
+stated for ARBITRARY `EndExpr` arguments, hence hold for every such form; the theorems below state what the forms
+evaluate to.  (The transcription is tied to the C++ by the correspondence runs: every compiled shape × role ×
+position on every run, see checks/c06.py.) -/
+
+/-- every form evaluates to "`end` is the last index `len-1`, then ordinary integer arithmetic with the operands in
+    the order written and C++ truncating division": `end`; `end-k`; scalar on the LEFT `k OP e`
+    (`BinaryOpScalarLeft`: `operation(left, right.value_with_len)`); scalar on the right `e OP k`
+    (`BinaryOpScalarRight`); two expressions (`BinaryOperation`); the six operations -/
+theorem C06_endexpr_forms (len : Nat) (k : Int) (e e₁ e₂ : EndExpr) (op : BinOp) :
+    EndExpr.last.resolve len = (len : Int) - 1 ∧
+    (EndExpr.fromEnd k).resolve len = (EndExpr.bin .sub .last (.lit k)).resolve len ∧
+    (EndExpr.bin op (.lit k) e).resolve len = op.eval k (e.resolve len) ∧
+    (EndExpr.bin op e (.lit k)).resolve len = op.eval (e.resolve len) k ∧
+    (EndExpr.bin op e₁ e₂).resolve len = op.eval (e₁.resolve len) (e₂.resolve len) ∧
+    (∀ a b : Int, BinOp.add.eval a b = a + b ∧ BinOp.sub.eval a b = a - b ∧ BinOp.mul.eval a b = a * b ∧
+      BinOp.div.eval a b = a.tdiv b ∧ BinOp.max.eval a b = max a b ∧ BinOp.min.eval a b = min a b) := by
+  refine ⟨rfl, rfl, rfl, rfl, rfl, fun a b => ⟨rfl, rfl, rfl, rfl, ?_, ?_⟩⟩
+  · simp only [BinOp.eval]; split <;> omega
+  · simp only [BinOp.eval]; split <;> omega
+
+/-- the operand order matters for `-` and `/`: `k - end` is `k - (len-1)`, the NEGATIVE of `end - k`, and the two
+    agree only when `k` is the last index itself; `k / end` for `0 ≤ k < end` is `0` whereas `end / k` is at least
+    `1` (so an evaluator that swaps the operands of the scalar-left class is wrong exactly for `-` and `/`, while
+    `+`, `*`, `max`, `min` do not depend on the order) -/
+theorem C06_endexpr_operand_order (len : Nat) (k : Int) :
+    (EndExpr.bin .sub (.lit k) .last).resolve len = k - ((len : Int) - 1) ∧
+    (EndExpr.bin .sub (.lit k) .last).resolve len = - (EndExpr.bin .sub .last (.lit k)).resolve len ∧
+    ((EndExpr.bin .sub (.lit k) .last).resolve len = (EndExpr.bin .sub .last (.lit k)).resolve len ↔ k = (len : Int) - 1) ∧
+    (0 < k → k < (len : Int) - 1 →
+      (EndExpr.bin .div (.lit k) .last).resolve len = 0 ∧ 1 ≤ (EndExpr.bin .div .last (.lit k)).resolve len) ∧
+    (∀ (op : BinOp) (a b : Int), op = .add ∨ op = .mul ∨ op = .max ∨ op = .min → op.eval a b = op.eval b a) := by
+  refine ⟨rfl, ?_, ?_, ?_, ?_⟩
+  · simp only [EndExpr.resolve, BinOp.eval]; omega
+  · simp only [EndExpr.resolve, BinOp.eval]; omega
+  · intro h0 h1
+    simp only [EndExpr.resolve, BinOp.eval]
+    constructor
+    · exact Int.tdiv_eq_zero_of_lt (by omega) h1
+    · have h2 : k ≤ (len : Int) - 1 := by omega
+      have h3 : k.tdiv k ≤ ((len : Int) - 1).tdiv k := Int.tdiv_le_tdiv h0 h2
+      rw [Int.tdiv_self (by omega)] at h3
+      exact h3
+  · intro op a b h
+    rcases h with h | h | h | h <;> subst h <;> simp only [BinOp.eval]
+    · omega
+    · exact Int.mul_comm a b
+    · split <;> split <;> omega
+    · split <;> split <;> omega
+
+/-- the reversal idiom `v((n-1) - idx)` (scalar on the left of an index vector): entry `x` of `idx` denotes
+    element `n-1-x`; for `0 ≤ x < n` this is a valid index, the map is an involution, and on a dimension of length
+    `n` it is the same element as `end - idx` -/
+theorem C06_endexpr_reversal (n : Nat) (x : Int) (len : Nat) :
+    let rev : VExpr := .bin .sub (.lit ((n : Int) - 1)) .idx
+    (rev.at x).resolve len = (n : Int) - 1 - x ∧
+    (0 ≤ x ∧ x < n → 0 ≤ (rev.at x).resolve len ∧ (rev.at x).resolve len < n) ∧
+    (rev.at ((rev.at x).resolve len)).resolve len = x ∧
+    (rev.at x).resolve n = ((VExpr.bin .sub .last .idx).at x).resolve n := by
+  intro rev
+  refine ⟨rfl, ?_, ?_, ?_⟩
+  · intro h
+    simp only [rev, VExpr.at, EndExpr.resolve, BinOp.eval]
+    omega
+  · simp only [rev, VExpr.at, EndExpr.resolve, BinOp.eval]
+    omega
+  · simp only [rev, VExpr.at, EndExpr.resolve, BinOp.eval]
+
+/-- the mid-point idioms are admissible on every non-empty dimension: `end/k` for `k ≥ 1` (in particular `end/2`),
+    `(end-1)/2` (truncating division: `0` on a dimension of length 1) and `end - end/2` lie in `0 … len-1` -/
+theorem C06_endexpr_midpoint_admissible (len : Nat) (hlen : 0 < len) (k : Int) (hk : 0 < k) :
+    (0 ≤ (EndExpr.bin .div .last (.lit k)).resolve len ∧ (EndExpr.bin .div .last (.lit k)).resolve len < len) ∧
+    (0 ≤ (EndExpr.bin .div (.bin .sub .last (.lit 1)) (.lit 2)).resolve len ∧
+      (EndExpr.bin .div (.bin .sub .last (.lit 1)) (.lit 2)).resolve len < len) ∧
+    (0 ≤ (EndExpr.bin .sub .last (.bin .div .last (.lit 2))).resolve len ∧
+      (EndExpr.bin .sub .last (.bin .div .last (.lit 2))).resolve len < len) := by
+  simp only [EndExpr.resolve, BinOp.eval]
+  have h0 : (0 : Int) ≤ (len : Int) - 1 := by omega
+  refine ⟨⟨Int.tdiv_nonneg h0 (by omega), ?_⟩, ?_, ?_⟩
+  · have := Int.tdiv_le_self k h0
+    omega
+  · by_cases h1 : len = 1
+    · subst h1; decide
+    · have h2 : (0 : Int) ≤ (len : Int) - 1 - 1 := by omega
+      rw [Int.tdiv_eq_ediv_of_nonneg h2]
+      omega
+  · rw [Int.tdiv_eq_ediv_of_nonneg h0]
+    omega
+
+/-- integer-vector expressions: entry number `j` of the index-vector expression `ve` over the intVector `xs`, as the
+    model uses it (`VExpr.entries`, one scalar expression per entry), evaluates to `value_with_len_(j, len)` of the
+    expression tree (`Array<1,int>::value_with_len_(j,len) = data_[j]` at the leaves), for every expression, every
+    vector, every entry and every dimension length; and the expression has as many entries as the vector -/
+theorem C06_vexpr_entry (ve : VExpr) (xs : List Int) (j : Nat) (len : Nat) (hj : j < xs.length) :
+    ((ve.entries xs).getD j (.lit 0)).resolve len = ve.valueWithLen xs j len ∧
+    (ve.entries xs).length = xs.length := by
+  refine ⟨?_, by simp [VExpr.entries]⟩
+  have hget : (ve.entries xs).getD j (.lit 0) = ve.at (xs.getD j 0) := by
+    simp [VExpr.entries, List.getD_eq_getElem?_getD, List.getElem?_map, List.getElem?_eq_getElem hj]
+  rw [hget]
+  clear hget
+  induction ve with
+  | lit k => rfl
+  | last => rfl
+  | idx => rfl
+  | bin op l r ihl ihr => simp only [VExpr.at, EndExpr.resolve, VExpr.valueWithLen, ihl, ihr]
+
+/-- `stride(b,e,s)` with the stride itself an index expression (`get_stride_with_len`, never range-tested): the
+    returned view of a rank-1 array starts at element `b`, its offset is `s·offset` with `s` resolved against the
+    dimension, its extent is the formula of `C06_range_extent` for that `s`, and element `i` is parent element
+    `b + i·s` -/
+theorem C06_stride_expr_addr {base off : Int} {d : Nat} {b e s : EndExpr} {checked : Bool} {w : View}
+    (h : slice ⟨base, [d], [off]⟩ [.stride b e s] checked = .ok w) :
+    w.base = base + b.resolve d * off ∧ w.strides = [s.resolve d * off] ∧ s.resolve d ≠ 0 ∧
+    (∃ n : Nat, w.dims = [n] ∧ (n : Int) = (e.resolve d + s.resolve d - b.resolve d).tdiv (s.resolve d)) ∧
+    ∀ i : Int, addr w [i] = addr ⟨base, [d], [off]⟩ [b.resolve d + i * s.resolve d] := by
+  obtain ⟨inc, hg, hb⟩ := slice_ok h
+  obtain ⟨i1, o1, i2, nd2, ns2, hu, hr, hinc, hm⟩ := sliceGo_cons_ok hg
+  have hr' : sliceGo checked [] [] [] = .ok (i2, nd2, ns2) := hr
+  simp only [sliceGo] at hr'
+  cases hr'
+  obtain ⟨n, o, rfl, hur⟩ := updateIndex_ok hu
+  obtain ⟨hd, hs⟩ := hm
+  obtain ⟨h1, h2, h3, h4, _⟩ := updateRange_ok hur
+  have haddr := (slice_addr h).2
+  refine ⟨by rw [hb, hinc, h1]; simp, by rw [hs, h2], h3, ⟨n, hd, h4⟩, fun i => ?_⟩
+  have := (haddr [i] (by rw [hd]; rfl)).2
+  simpa [expandSlice] using this
+
 /-! ## non-vacuity
 
 A 3×4×5 parent; `A(1, stride(end,0,-1), range(1,end))`, then `T`, then `diag_vector(-1)`: the run
@@ -429,11 +564,11 @@ succeeds in the checked build, is admissible, and the result has the expected sh
 build rejects an index one past the end; a direction-inconsistent range is empty. -/
 example :
     run true (fresh true [3, 4, 5])
-      [.slice [.at (.lit 1), .stride (.fromEnd 0) (.lit 0) (-1), .range (.lit 1) (.fromEnd 0)], .T, .diag (-1)]
+      [.slice [.at (.lit 1), .stride (.fromEnd 0) (.lit 0) (.lit (-1)), .range (.lit 1) (.fromEnd 0)], .T, .diag (-1)]
       = .ok ⟨37, [3], [-4]⟩ := by decide
 
 example : RunAdm true (fresh true [3, 4, 5])
-    [.slice [.at (.lit 1), .stride (.fromEnd 0) (.lit 0) (-1), .range (.lit 1) (.fromEnd 0)], .T, .diag (-1)] := by
+    [.slice [.at (.lit 1), .stride (.fromEnd 0) (.lit 0) (.lit (-1)), .range (.lit 1) (.fromEnd 0)], .T, .diag (-1)] := by
   refine ⟨Or.inl rfl, fun w _ => ⟨trivial, fun w' _ => ⟨trivial, fun _ _ => trivial⟩⟩⟩
 
 example : slice (fresh true [3, 4]) [.at (.lit 3), .all] true = .error .index_out_of_bounds := by decide
@@ -455,5 +590,14 @@ example : ¬ SelsAdm [6] [.vec [.lit 3, .lit 6, .lit 2]] := by
   simp [SelsAdm, SelAdm, EndExpr.resolve]
 example : ∃ iv, indexed (fresh true [3, 4]) [.all, .vec [.lit 3, .lit 1]] true = .ok iv ∧
     iv.dims = [3, 2] ∧ ixRead true iv = .ok [3, 1, 7, 5, 11, 9] := ⟨_, rfl, by decide, by decide⟩
+
+/-! `v(12-end)` on 10 elements is element 3, not `end-12 = -3`; `stride(end/3, end, end/4)` on 10 elements is
+3,5,7,9; `v(9-idx)` with `idx = (1,3,0)` is 8,6,9; a division by zero is flagged. -/
+example : slice (fresh true [10]) [.at (.bin .sub (.lit 12) .last)] false = .ok ⟨3, [], []⟩ := by decide
+example : slice (fresh true [10]) [.stride (.bin .div .last (.lit 3)) .last (.bin .div .last (.lit 4))] true
+    = .ok ⟨3, [4], [2]⟩ := by decide
+example : ((VExpr.bin .sub (.lit 9) .idx).entries [1, 3, 0]).map (EndExpr.resolve 10) = [8, 6, 9] := by decide
+example : (EndExpr.bin .div (.lit 3) (.bin .sub .last (.lit 3))).defined 4 = false := by decide
+example : (0 : Int) < 2 ∧ (2 : Int) < ((10 : Nat) : Int) - 1 := by decide
 
 end Adept.Views
